@@ -209,9 +209,31 @@ def run_case(ctx, case):
         _ops(ctx, case)
 
 
+class _ROMapping(__import__("collections").abc.Mapping):
+    """A read-only Mapping that is not a dict (the constructor is annotated to take any Mapping)."""
+
+    def __init__(self, d):
+        self._d = dict(d)
+
+    def __getitem__(self, k):
+        return self._d[k]
+
+    def __iter__(self):
+        return iter(self._d)
+
+    def __len__(self):
+        return len(self._d)
+
+
+_MAPPINGS = [dict, __import__("collections").OrderedDict, lambda d: __import__("types").MappingProxyType(dict(d)),
+             lambda d: __import__("collections").ChainMap(dict(d)), _ROMapping]
+_map_i = [0]
+
+
 def _setprops(ctx, case, props):
+    _map_i[0] += 1
     try:
-        frame = C.SetPropertiesCommand(dict(props)).tobytes()
+        frame = C.SetPropertiesCommand(_MAPPINGS[_map_i[0] % len(_MAPPINGS)](props)).tobytes()
     except Exception as e:  # noqa: BLE001
         ctx.count(("setprops-raise", repr(props)), kind="setprops-raised")
         ctx.violation("setprops-raises", f"SetPropertiesCommand.tobytes raised {type(e).__name__}: {e}", case, {"props": {int(k): v for k, v in props.items()}})
@@ -244,12 +266,16 @@ def _ops_pair(ctx, case):
         devs.append(dev)
     errs = []
 
-    async def client(dev):
-        ac = AC(ip=dev.host, port=dev.port, device_id=dev.device_id)
-        if dev.version == 3:
-            await ac.authenticate(dev.token, dev.key)
-        ac.enable_energy_usage_requests = True
-        await ac.get_capabilities()
+    async def client(dev, shared=None):
+        ac = shared or AC(ip=dev.host, port=dev.port, device_id=dev.device_id)
+        if shared is None:
+            if dev.version == 3:
+                await ac.authenticate(dev.token, dev.key)
+            ac.enable_energy_usage_requests = True
+            await ac.get_capabilities()
+            if dev is devs[0] and case["oseed"] % 2:
+                # a second task of the application uses the same object at the same time (e.g. a poller next to a user action)
+                extra.append(asyncio.ensure_future(client(dev, shared=ac)))
         for _ in range(r.randint(3, 8)):
             op = r.choice(["refresh", "apply", "toggle", "caps", "props"])
             try:
@@ -272,12 +298,64 @@ def _ops_pair(ctx, case):
                 errs.append((op, e))
             await asyncio.sleep(r.choice([0.0, 0.0, 0.02, 0.1]))
 
+    extra = []
+
     async def go(loop):
         await asyncio.gather(*[client(d) for d in devs])
+        if extra:
+            await asyncio.gather(*extra)
 
     H.run_virtual(go, net)
     for op, e in errs:
         ctx.violation("operation-raises", f"{op} raised {type(e).__name__}: {e}", case)
+    # process-wide emission order: on connections that are already established a command is written to the wire in the same
+    # loop step in which it was serialised, so the ids seen by the two devices, merged by arrival time, advance by one
+    merged = []
+    for di, dev in enumerate(devs):
+        first_t = {}
+        for t, cid, frame in dev.frames_seen:
+            first_t.setdefault(cid, t)
+            merged.append((t, len(merged), di, cid, frame, t > first_t[cid]))
+    merged.sort(key=lambda x: (x[0], x[1]))
+    # frames that reached the two devices at the same virtual instant: their relative order is not observable from the two
+    # device logs, so take them in id order (relative to the last id before the tie)
+    ordered, last_id, i = [], 0, 0
+    while i < len(merged):
+        j = i
+        while j < len(merged) and merged[j][0] == merged[i][0]:
+            j += 1
+        grp = merged[i:j]
+
+        def _mid(x, last_id=last_id):
+            try:
+                return (acframe.parse_command(x[4])["msg_id"] - last_id) % 256
+            except RefError:
+                return 0
+        grp.sort(key=_mid)
+        ordered += grp
+        try:
+            last_id = acframe.parse_command(grp[-1][4])["msg_id"]
+        except RefError:
+            pass
+        i = j
+    prev = None
+    seen_before = set()
+    for t, _, di, cid, frame, established in ordered:
+        try:
+            cmd = acframe.parse_command(frame)
+        except RefError:
+            prev = None
+            continue
+        if (di, cid, frame) in seen_before:
+            continue          # a retransmission of an earlier command (a run emits fewer than 256 commands, so equal bytes = same command)
+        seen_before.add((di, cid, frame))
+        if prev is not None and established and prev[3]:
+            ctx.bump("id-step-checked")
+            if cmd["msg_id"] != (prev[0] + 1) % 256:
+                ctx.violation("message-id-step", f"with two clients active, message id {cmd['msg_id']} reached the wire right after {prev[0]} "
+                              f"(device {di}, t={t:.3f})", case)
+                break
+        prev = (cmd["msg_id"], frame, (di, cid), established, t)
     for dev in devs:
         for frame, why in dev.ac.rejected:
             ctx.violation("device-rejects", f"with two clients active, a device rejected a frame: {why}", case, {"frame": frame})
